@@ -153,6 +153,14 @@ def perturb(a, kind, rng):
         if not cands:
             return None
         setattr(b, rng.choice(cands), None)
+    elif kind == 'drop_interval':
+        if not b._intervals:
+            return None
+        b._intervals.pop(rng.randrange(len(b._intervals)))
+    elif kind == 'duplicate_interval':
+        if not b._intervals:
+            return None
+        b._intervals.insert(rng.randrange(len(b._intervals) + 1), _copy.deepcopy(rng.choice(b._intervals)))
     elif kind == 'interval_mods_none':
         ivs = [iv for iv in (b._intervals or []) if iv.mods is not None]
         if not ivs:
@@ -164,7 +172,7 @@ def perturb(a, kind, rng):
 
 
 PERTURBATIONS = ['value', 'multiplier', 'position', 'interval_bound', 'charge', 'drop', 'duplicate', 'residue', 'drop_field',
-                 'interval_mods_none']
+                 'interval_mods_none', 'drop_interval', 'duplicate_interval']
 
 
 def permute(a, rng, reverse=False):
@@ -503,6 +511,8 @@ def run(chk):
             return f'Mod {x!r} == {y!r} is {x == y}, values/multipliers say {want}'
         if want and hash(x) != hash(y):
             return f'equal Mods {x!r}, {y!r} with different hashes'
+        if (x == y.val) != (x.val == y.val and x.mult == 1):
+            return f'Mod {x!r} == raw value {y.val!r} is {x == y.val}'
         return None
     chk.oracle('mod_eq_hash', mp, o_mod, nontrivial_fn=lambda c: c[0] != c[1], key_fn=lambda c: c[0] + ' ' + c[1])
 
@@ -575,7 +585,7 @@ def run(chk):
                 d[k] = None
         if rng.random() < 0.2:
             d = {k: v for k, v in d.items() if not isinstance(k, int)}
-        adds.append((annot.dump(a), show_dict(d, sort=False), rng.random() < 0.5))
+        adds.append((annot.dump(a), show_dict(d, sort=False), rng.random() < 0.5, rng.random() < 0.3))
 
     def parse_dict(s):
         d = {}
@@ -595,9 +605,15 @@ def run(chk):
         return d
 
     def add_impl(c):
-        da, dd, app = c
+        da, dd, app, single = c
         a = annot.undump(da)
-        a.add_mod_dict(parse_dict(dd), append=app)
+        d = parse_dict(dd)
+        if single:
+            # a one-element list may be given as the bare Mod (ACCEPTED_MOD_INPUT)
+            for k, v in d.items():
+                if k not in ('charge', 'intervals') and isinstance(v, list) and len(v) == 1:
+                    d[k] = v[0]
+        a.add_mod_dict(d, append=app)
         return annot.dump(a)
     chk.correspond('add_mod_dict', DRV, adds, lambda c: f'addmoddict\t{c[0]}\t{c[1]}\t{int(c[2])}', add_impl,
                    compare=lambda im, m: im == annot.canon_dump(m), nontrivial_fn=lambda c, im: bool(c[1]))
@@ -636,6 +652,8 @@ def run(chk):
                     return f'equality blind to {kind} after reordering: {annot.dump(a, False)} vs {annot.dump(pb, False)}'
         if annot.dump(a, sort_internal=False) != d0:
             return 'comparison changed its argument'
+        if a == a.serialize() or not (a != a.serialize()) or a == None:  # noqa: E711
+            return 'an annotation compares equal to a non-annotation'
         return None
 
     udumps = [annot.dump(a, sort_internal=False) for a in anns]
@@ -666,6 +684,10 @@ def run(chk):
         s = pt.add_mods(seq, md)
         if s != s0:
             return f'add_mods(*pop_mods) gives {s!r}, original {s0!r}'
+        seq, md = pt.pop_mods(s0)
+        s = pt.add_mods(pp.ProFormaAnnotation(_sequence=seq), md)
+        if s != s0:
+            return f'add_mods(annotation, pop_mods(string)) gives {s!r}, original {s0!r}'
         # through the string form as well
         if pt.add_mods(pt.strip_mods(s0), pt.get_mods(s0)) != s0:
             return f'string round trip gives {pt.add_mods(pt.strip_mods(s0), pt.get_mods(s0))!r}, original {s0!r}'
